@@ -30,11 +30,11 @@ LEVEL_TEXT = ("Proved in Lean for every history of start/advance/set_progress/di
               "_TIME_FORMATS) and by exhaustive small-scope plus random differential runs comparing every stream write.")
 LEVEL_NOTE = ("Trusted: Lean kernel + propext/Quot.sound/Classical.choice, the hand-written model (sampled by the "
               "correspondence), the virtual clock and the terminal emulator of the harness. Formats with style tags "
-              "(D29) and the stale maximum of a max-less bar finished on a plain output (D18b) are known findings.")
+              "(D29) are a known finding; the stale maximum after finish() on a plain output (D18b, found here) is repaired.")
 LEAN_MODULES = ["Clikit.Props.C16"]
 REQUIRED_THEOREMS = ["Clikit.Props.C16." + n for n in (
     "step_bounds", "bar_width", "percent_exact", "throttle", "throttle_spacing", "max_always_draws",
-    "finish_final", "finish_final_partial", "finish_final_full_fails", "ansi_line_latest", "ansi_line_latest_events",
+    "finish_final", "Counter.c16_d18b_old", "ansi_line_latest", "ansi_line_latest_events",
     "plain_own_line", "plain_single_lines", "quiet_nothing", "set_progress_clamps")]
 RULE = ("exhaustive small scope: every call sequence up to length 4 over a pool of 8 (quick) / 11 (thorough) public "
         "calls with clock advances (start, advance(1) after 0 / 1/64 / 1/4 s [/ 2 s], advance(3) after 1/16 s, "
@@ -77,6 +77,7 @@ BASE_FORMAT = {0: "normal", 1: "verbose", 2: "very_verbose", 4: "debug"}
 
 CUSTOM_FORMATS = [
     "%current%/%max% [%bar%] %percent:3s%%",
+    "%current%/%max% %percent%%",
     " %current% [%bar%] %message%",
     "%message% %current%/%max%",
     "%bar% %percent%%",
@@ -160,29 +161,6 @@ def _rand_message(rng):
     return "".join(rng.choice(MESSAGE_ALPHABET) for _ in range(n))
 
 
-def _shows_max(fmt):
-    return fmt is not None and ("%max" in fmt or "%percent" in fmt)
-
-
-def _d18b_class(case):
-    """plain output, a bar that has no maximum at some point, and a format that can show the maximum /
-    the percentage (custom, or a default format resolved while a maximum existed): finish() sets
-    max = step but does not redraw the frame that is already on the line (known finding D18b)."""
-    if case["kind"] not in ("plain", "plain_section") or case["quiet"]:
-        return False
-    maxima = [case["max"]] + [o["arg"] for o in case["ops"] if o["op"] == "start" and o["arg"] is not None]
-    zero = [m for m in maxima if m <= 0]
-    if not zero:
-        return False
-    if not any(o["op"] == "finish" for o in case["ops"]):
-        return False
-    fmt = case["format"]
-    if fmt and fmt not in _formats_table() and fmt + "_nomax" not in _formats_table():
-        return _shows_max(fmt)
-    # default / named formats: the _nomax variants show neither; a variant chosen with a maximum does
-    return len(zero) != len(maxima)
-
-
 def _has_tag(fmt):
     return bool(fmt) and re.search(r"<(/|[a-zA-Z])", fmt) is not None
 
@@ -225,9 +203,6 @@ def _random_case(rng, tier):
         else:
             ops.append(_op("set_message", _rand_message(rng), dt))
     case["ops"] = ops
-    if _d18b_class(case):
-        # steer the main stream away from the known finding: same history on an overwriting output
-        case["kind"] = "ansi" if case["kind"] == "plain" else "section"
     return case
 
 
@@ -609,10 +584,10 @@ def oracle(case, obs):
                     return "%s: the last frame shows step %s, the maximum is %d" % (where, c, ev["max"])
             for x in last["max"]:
                 if int(x) != ev["max"]:
-                    return "%s: [finish-stale-max] the last frame shows maximum %s, the maximum is %d" % (where, x, ev["max"])
+                    return "%s: the last frame shows maximum %s, the maximum is %d" % (where, x, ev["max"])
             for p in last["pct"]:
                 if ev["max"] > 0 and int(p) != 100:
-                    return "%s: [finish-stale-max] the last frame shows %s%% after finish()" % (where, p)
+                    return "%s: the last frame shows %s%% after finish()" % (where, p)
         if data:
             last_write_t = ev["t"]
     return None
@@ -622,8 +597,6 @@ def oracle(case, obs):
 def known_class(case, obs, verdict):
     if _has_tag(case["format"]) and case["kind"] in ("ansi", "section"):
         return "D29"
-    if "[finish-stale-max]" in (verdict or "") and case["kind"] in ("plain", "plain_section"):
-        return "D18b"
     return None
 
 
@@ -631,8 +604,6 @@ def witnesses():
     return {
         "D29": _case(kind="ansi", max=0, format="<info>%message%</info> %current%", message="a long message here",
                      ops=[_op("start"), _op("set_message", "short"), _op("advance", 1, 16)]),
-        "D18b": _case(kind="plain", max=0, format="%current%/%max% %percent%%",
-                      ops=[_op("start"), _op("advance", 3, 128), _op("finish")]),
     }
 
 
